@@ -369,6 +369,19 @@ def run(ctx):
                         tree_source=rng.choice(["", "a/b.swc"]))
             go("random", spec)
 
+        # (6) column -> array construction keeps requested extra columns (FINDING of contracts/C01.py: Tree.from_data_frame drops them)
+        from swcgeom.core import Tree
+        from swcgeom.core.swc_utils import read_swc
+
+        for rows in (["1 1 0 0 0 1 -1 7.5"], ["1 1 0 0 0 1 -1 7.5", "2 3 1 0 0 1 1 8.25", "3 3 2 0 0 1 2 -1"]):
+            text = "\n".join(rows) + "\n"
+            df, _ = read_swc(io.StringIO(text), extra_cols=["e"])
+            t = Tree.from_data_frame(df)
+            ctx.case("extra-columns", dict(text=text, extra_cols=["e"]), nontrivial=True)
+            if "e" not in list(t.keys()) or [float(v) for v in t.get_ndata("e")] != [float(v) for v in df["e"]]:
+                ctx.violation("Tree.from_data_frame", "extra-columns-of-the-frame-are-kept", dict(text=text, extra_cols=["e"]),
+                              f"tree columns {list(t.keys())}", f"tree columns {list(df.columns)} with e = {list(df['e'])}")
+
         rep.flush(ctx)
         ctx.rule(f"all sorted parent tables with <= {nmax} nodes x id offsets {OFFSETS} x read sources {READ_SRC} x write via to_swc() string / to_swc(fname) ("
                  f"source header False/True/custom, comments from {COMMENT_POOL!r}, types from {TYPE_POOL}); all unsorted numberings with root 0 up to "
